@@ -437,35 +437,70 @@ func runFG(c *Ctx, over bool) []*ssa.Function {
 	}
 	g := newFG(c)
 	_, t, ops := srcAnalysis(c)
-	hdrFn := u.Func(rtPath, "PageHeader")
+	// the header read: the thrift decoder of schema.PageHeader — whatever runtime function calls it (PageHeader(), or a
+	// helper that decodes into a header object handed in by its caller)
+	var hdrFn *ssa.Function
+	if schPkg := u.Pkgs[rtPath].Imports[schPath]; schPkg != nil {
+		if obj := schPkg.Types.Scope().Lookup("PageHeader"); obj != nil {
+			ms := u.Prog.MethodSets.MethodSet(types.NewPointer(obj.Type()))
+			for i := 0; i < ms.Len(); i++ {
+				if fn, ok := ms.At(i).Obj().(*types.Func); ok && fn.Name() == "Read" {
+					hdrFn = u.Prog.FuncValue(fn)
+				}
+			}
+		}
+	}
 	if hdrFn == nil {
-		r.failf("parquet.PageHeader not found")
+		r.failf("(*schema.PageHeader).Read not found")
 		return nil
 	}
-	// header consumers: functions of the runtime that obtain a page header from the source — by calling PageHeader or a
-	// helper that does and returns the header — and go on to interpret a payload (hand the header, or the source, to a
-	// function that reads from the source). The acquiring helper itself is walked as part of its caller.
+	// header consumers: functions of the runtime that obtain a page header from the source — by calling a function that
+	// (transitively) decodes one — and go on to interpret a payload (hand a header, or a data page header, to a function
+	// that reads from the source). The acquiring helper itself is walked as part of its caller.
 	reachHdr := map[*ssa.Function]bool{}
 	reachesHdr := func(f *ssa.Function) bool {
 		if v, ok := reachHdr[f]; ok {
 			return v
 		}
-		res := f == hdrFn
+		res := f == hdrFn || callsDirectly(f, hdrFn)
 		for g2 := range u.reach([]*ssa.Function{f}) {
-			if g2 == hdrFn {
+			if g2 == hdrFn || callsDirectly(g2, hdrFn) {
 				res = true
 			}
 		}
 		reachHdr[f] = res
 		return res
 	}
+	isHeaderType := func(t types.Type) bool {
+		ts := t.String()
+		return strings.HasSuffix(ts, "schema.PageHeader") || strings.HasSuffix(ts, "schema.DataPageHeader")
+	}
 	returnsHeader := func(f *ssa.Function) bool {
 		res := f.Signature.Results()
-		return res.Len() >= 1 && strings.HasSuffix(res.At(0).Type().String(), "schema.PageHeader")
+		return res.Len() >= 1 && isHeaderType(res.At(0).Type())
 	}
 	var consumers []*ssa.Function
 	for _, f := range u.Funcs {
 		if u.pkgPathOf(f) != rtPath || f.Synthetic != "" || returnsHeader(f) {
+			continue
+		}
+		// only functions that interpret a payload (hand a header on to a function that reads from the source) are readers;
+		// listing functions belong to C16
+		interprets := false
+		for _, b := range f.Blocks {
+			for _, ins := range b.Instrs {
+				if c2, ok := ins.(*ssa.Call); ok {
+					if sc2 := c2.Call.StaticCallee(); sc2 != nil && u.InUniverse(sc2) && ops.intrinsic[sc2] && !reachesHdr(sc2) {
+						for _, a := range c2.Call.Args {
+							if isHeaderType(a.Type()) {
+								interprets = true
+							}
+						}
+					}
+				}
+			}
+		}
+		if !interprets {
 			continue
 		}
 		for _, b := range f.Blocks {
@@ -475,28 +510,7 @@ func runFG(c *Ctx, over bool) []*ssa.Function {
 					continue
 				}
 				sc := call.Call.StaticCallee()
-				if sc == nil || !returnsHeader(sc) || !reachesHdr(sc) {
-					continue
-				}
-				var hdr ssa.Value
-				for _, ref := range *call.Referrers() {
-					if ex, ok := ref.(*ssa.Extract); ok && ex.Index == 0 {
-						hdr = ex
-					}
-				}
-				if hdr == nil {
-					continue
-				}
-				// only functions that interpret a payload (hand the header on, or read values) are readers; listing functions belong to C16
-				interprets := false
-				for _, ref := range *hdr.Referrers() {
-					if c2, ok := ref.(*ssa.Call); ok {
-						if sc2 := c2.Call.StaticCallee(); sc2 != nil && u.InUniverse(sc2) && ops.intrinsic[sc2] {
-							interprets = true
-						}
-					}
-				}
-				if !interprets {
+				if sc == nil || u.pkgPathOf(sc) != rtPath || !reachesHdr(sc) {
 					continue
 				}
 				consumers = append(consumers, f)
@@ -675,4 +689,16 @@ func checkCodecGate(c *Ctx) {
 			r.ok("FG", key, pos, fmt.Sprintf("%d codec cases; every other codec value ends in an error return", len(tests)))
 		}
 	}
+}
+
+// callsDirectly: f contains a static call of callee.
+func callsDirectly(f, callee *ssa.Function) bool {
+	for _, b := range f.Blocks {
+		for _, ins := range b.Instrs {
+			if call, ok := ins.(ssa.CallInstruction); ok && call.Common().StaticCallee() == callee {
+				return true
+			}
+		}
+	}
+	return false
 }
